@@ -3,7 +3,7 @@ from vx.unit import Unit
 from vx.extract import C
 from .common import HEADER, FOOTER, results_items
 
-PROPS = ['C02', 'C01']
+PROPS = ['C02', 'C16', 'C01']
 
 
 def builtin(u, rel, struct, fn):
@@ -24,7 +24,7 @@ def builtin(u, rel, struct, fn):
 
 
 def build(repo, findings):
-    u = Unit('U2', 'break/continue/return/exit builtins', repo, ['C02'], safety_props=['C01', 'C02'])
+    u = Unit('U2', 'break/continue/return/exit builtins', repo, ['C02', 'C16'], safety_props=['C01', 'C02'])
     u.raw(HEADER)
     cm = u.source('brush-core/src/commands.rs')
     cm.require_text(r"pub struct ExecutionContext<'a, SE[^>]*> \{\s*(///[^\n]*\n\s*)*pub shell: &'a mut Shell<SE>,", 'projected field ExecutionContext.shell')
@@ -60,6 +60,7 @@ def build(repo, findings):
     f.sig('exit_execute', ret='res', ensures=[
         C('C02 exit-code-and-flow', '''res is Ok && res->Ok_0.next_control_flow is ExitShell
     && u8_of(res->Ok_0.exit_code) == (match self_.code { Some(c) => mod256(c as int), None => old(context.shell).status() })'''),
+        C('C16 exit-only-asks-the-shell-to-leave-it-runs-no-exit-trap-itself', 'final(context.shell).on_exit_runs() == old(context.shell).on_exit_runs()'),
     ])
     f.before(r'^\s*let code_8bit = ', 'proof { if self_.code is Some { lemma_and_ff_i64(self_.code->Some_0); } lemma_exit_code_round_trip(mod256(self_.code->Some_0 as int)); lemma_exit_code_round_trip(context.shell.status()); }', fn_name='exit_execute')
     u.add(f)
